@@ -203,11 +203,18 @@ pub fn replay_one(b: &Value, variant: usize) -> Option<String> {
             match name {
                 "update" => {
                     if blocked != "none" {
-                        // any argument: the refusal comes first
+                        // any argument: the refusal comes first - and it leaves every stored number where it was
+                        let snap = |sv: &DefaultSolver<f64>| -> Vec<u64> { sv.data.q.iter().chain(sv.data.b.iter()).chain(sv.data.P.nzval.iter()).chain(sv.data.A.nzval.iter()).map(|v| v.to_bits()).collect() };
+                        let before = snap(&solver);
+                        let np = solver.data.P.nzval.len();
+                        let rp = res_name(solver.update_P(&vec![3.5; np]));
+                        let ra = res_name(solver.update_A(&(vec![0usize], vec![-2.25])));
+                        if rp != op["result"].as_str().unwrap() || ra != op["result"].as_str().unwrap() { return Some(format!("matrix update on a blocked solver returned {} / {}", rp, ra)); }
                         let r = res_name(solver.update_q(&vec![1.0; solver.data.n]));
                         if r != op["result"].as_str().unwrap() { return Some(format!("update on a blocked solver returned {} but the model says {}", r, op["result"])); }
                         let r2 = res_name(solver.update_b(&(vec![0usize], vec![1.0])));
                         if r2 != op["result"].as_str().unwrap() { return Some(format!("partial update on a blocked solver returned {}", r2)); }
+                        if snap(&solver) != before { return Some("a refused update changed the solver's stored data".into()); }
                         continue;
                     }
                     let got = apply_update(&mut solver, seed, op, &cur, zipform);
